@@ -1861,7 +1861,7 @@ def r8_7(rep):
     """`derives_of_item` may withhold a trait from an item for reasons of its own (`<div rustbindgen nocopy>` ..).  A type
     that *contains* such an item still derives the trait unless the fix-point analysis knows the same reason — and then
     the output does not compile (`#[derive(Copy)]` on a struct with a non-Copy member, E0204).  So every condition that
-    guards a DerivableTraits bit besides the CanDerive* answer and `packed` must be consulted on the analysis side
+    guards a DerivableTraits bit besides the CanDerive* answer - including "packed and not Copy" - must be consulted on the analysis side
     (CannotDerive::constrain_type / DeriveTrait::not_by_name, two call levels)."""
     prog = rep.prog
     doi = rep.need(prog.fn("codegen::derives_of_item"), "codegen::derives_of_item")
@@ -1887,7 +1887,18 @@ def r8_7(rep):
     done = set()
     for flag, n in flag_sites(doi):
         for a, pol, x in qq.guard_atoms(doi, n):
-            if not isinstance(x, dict) or "CanDerive" in a and "can_derive_" in a or a == "param:" + packed_param:
+            if not isinstance(x, dict) or ("CanDerive" in a and "can_derive_" in a and not (a.startswith("all(") and ("param:" + packed_param) in a)):
+                continue
+            if a == "param:" + packed_param or (a.startswith("all(") and ("param:" + packed_param) in a):
+                # "packed and not Copy => derive nothing" is such a reason as well: the item loses every trait, its containers do not
+                if "packed" in done:
+                    continue
+                done.add("packed")
+                vis = any("is_packed" in c for c in seen_callees)
+                rep.check(vis, "exclusion-seen-by-analysis:packed-without-copy",
+                          "a packed item that is not Copy derives nothing, %s" % ("and the CannotDerive analysis knows about packed items" if vis else
+                          "but the CannotDerive analysis never looks at packedness: a struct that contains such an item still derives Debug / "
+                          "Default / Hash / PartialEq over it (E0277)"), doi.loc(n))
                 continue
             e = strip(x)
             name = callee_of(e) if e.get("k") in ("Call", "MCall") else ("%s::%s" % (e.get("adt"), e.get("f")) if e.get("k") == "Field" else a[:60])
